@@ -235,7 +235,10 @@ def evaluate(group_names, prop, tier, res, timeout_s=None):
                 res.add(name, h.group.name, 'kani/cbmc', 'failed', time_ms=tms, bounded=h.bound, detail='; '.join(mine))
                 pb = []
                 try:
-                    pb = playback(ws, pkg, h.name, timeout_s)
+                    # concrete playback costs a second full run of the harness: only where the values
+                    # can be mapped to a replay case (inputs declared) or the harness is cheap
+                    if h.extra.get('inputs') or (r['time_s'] or 0) < 30:
+                        pb = playback(ws, pkg, h.name, timeout_s)
                 except Exception as e:  # playback is best effort
                     pb = [dict(check='playback failed: %r' % e, values=[])]
                 violations.append(dict(obligation='kani:%s' % h.name, slug='kani_' + h.name, unit=h.group.name, backend='kani/cbmc',
